@@ -42,6 +42,7 @@ class Explorer:
         self.first_hist = {}                # state key -> shortest history
         self.succ = {}                      # (state key, event key) -> (outcome key, next state key)
         self.merge_conflicts = []
+        self.pruned = 0
 
     def rebuild(self, hist):
         obj = self.build()
@@ -77,8 +78,13 @@ class Explorer:
                     self.merge_conflicts.append({'state': kb, 'event': ev, 'first': self.succ[sk],
                                                  'second': (ok, ka), 'hist': list(hist)})
                 self.succ.setdefault(sk, (ok, ka))
+                keep = True
                 if self.on_transition:
-                    self.on_transition(hist, ev, kb, obj, outcome, ka)
+                    keep = self.on_transition(hist, ev, kb, obj, outcome, ka)
+                if keep is False:
+                    # the checker flagged this successor (violation / out of model): do not expand it
+                    self.pruned += 1
+                    continue
                 new = ka not in self.first_hist
                 if new:
                     self.first_hist[ka] = hist + (ev,)
@@ -94,7 +100,19 @@ class Explorer:
         self.closed = self.capped is None
         return self
 
+    def replay_one(self, hist, ev):
+        """Re-execute exactly one transition (history + event) and run the checker on it."""
+        hist = tuple(hist)
+        obj = self.rebuild(hist)
+        kb = _key(self.canon(obj))
+        outcome = self.apply(obj, ev)
+        ka = _key(self.canon(obj))
+        if self.on_transition:
+            self.on_transition(hist, ev, kb, obj, outcome, ka)
+        return outcome
+
     def stats(self):
         return {'states': self.states, 'transitions': self.transitions, 'closed': self.closed,
                 'capped': self.capped, 'depth_reached': self.depth_reached,
-                'distinct_outcomes': len(self.outcomes), 'merge_conflicts': len(self.merge_conflicts)}
+                'distinct_outcomes': len(self.outcomes), 'merge_conflicts': len(self.merge_conflicts),
+                'pruned_successors': self.pruned}
